@@ -134,13 +134,23 @@ def copyNoVars (s : St) : St := updatetflag (shell s)
 
 inductive Win where
   | int (i : Int)
-  | slc (a b : Option Int)
+  | slc (a b : Option Int)                  -- unit stride
+  | sl (a b : Option Int) (st : Int)        -- any non-zero stride
+  | lst (l : List Int)                      -- index list
 deriving Repr
+
+/-- the windows C11 is about: integers and unit-stride slices -/
+def Win.unit : Win → Bool
+  | .int _ => true
+  | .slc _ _ => true
+  | _ => false
 
 /-- the indices a window selects on an axis of length `n` (none: IndexError) -/
 def winIdx (n : Nat) : Win → Option (List Nat)
   | .int i => (normInt n i).map (fun k => [k])
   | .slc a b => some (sliceIndices n a b 1)
+  | .sl a b st => if st = 0 then none else some (sliceIndices n a b st)
+  | .lst l => l.mapM (normInt n)
 
 inductive Dm where
   | T | L | R | C | P
@@ -285,7 +295,7 @@ def opRename (s : St) (old new : String) : Option St := do
   pure (updatemeta (renamePre s v old new))
 
 inductive FnK where
-  | mean | min | max | sum | id | first2
+  | mean | min | max | sum | id | first2 | rev
 deriving DecidableEq, Repr
 
 def applyFn : FnK → List Rat → List Rat
@@ -299,6 +309,7 @@ def applyFn : FnK → List Rat → List Rat
     | x :: xs => [xs.foldl (fun a b => if a < b then b else a) x]
   | .id, l => l
   | .first2, l => l.take 2
+  | .rev, l => l.reverse
 
 def fnLen (f : FnK) (n : Nat) : Nat := (applyFn f ((List.range n).map (fun (i : Nat) => (i : Rat)))).length
 
@@ -459,11 +470,15 @@ def parseWin (s : String) : Option Win :=
   | ["s", a, b] => match parseOpt parseInt a, parseOpt parseInt b with
     | some a, some b => some (Win.slc a b)
     | _, _ => none
+  | ["t", a, b, st] => match parseOpt parseInt a, parseOpt parseInt b, parseInt st with
+    | some a, some b, some st => some (Win.sl a b st)
+    | _, _, _ => none
+  | ["l", l] => ((l.splitOn ".").mapM parseInt).map Win.lst
   | _ => none
 
 def parseFn : String → Option FnK
   | "mean" => some .mean | "min" => some .min | "max" => some .max | "sum" => some .sum
-  | "id" => some .id | "first2" => some .first2
+  | "id" => some .id | "first2" => some .first2 | "rev" => some .rev
   | _ => none
 
 /-- `copy`, `slice@TSTEP~i:3;LAY~s:1:_`, `subset@a.b`, `rename@old@new`, `apply@DIM@fn`, `eval@new@src@0`,
